@@ -615,7 +615,7 @@ fn main() {
             check_case(c, "exhaustive_2x1", &mut model, &mut report);
         }
     }
-    let n_random = if args.thorough() { 8000 } else { 700 };
+    let n_random = if args.thorough() { 60_000 } else { 700 };
     for _ in 0..n_random {
         let mut r = rng.fork();
         let c = gen_case(&mut r, &mut report);
